@@ -23,5 +23,10 @@ UpTo(s, c, i) == IF i > Len(s) \/ SubSeq(s, i, i) = c THEN SubSeq(s, 1, i - 1) E
 VariantOfName(n) == UpTo(n, ":", 1)
 
 Eq(a, b) == Class(a) = Class(b)
+\* payloads that denote the same mathematical value in different spellings: the property does not say
+\* whether they are equal (the crate compares JSON by its serialisation, so they are not); either answer is
+\* accepted as long as equality stays an equivalence and agrees with hashing
+SoftGroups == { {"Json:f+0", "Json:f-0", "Json:i0"}, {"Json:arr+0", "Json:arr-0"}, {"Json:1", "Json:1.0"} }
+Soft(a, b) == \E g \in SoftGroups : a \in g /\ b \in g
 HashKey(a) == <<VariantOfName(a), Class(a)>>
 =============================================================================
